@@ -204,7 +204,7 @@ def real_shard(seed, n, tier="quick"):
 
 def run(tier, seed):
     from vlib.shards import run_jobs
-    nr = 96 if tier == "quick" else 1200
+    nr = 96 if tier == "quick" else 2400
     jobs = [{"module": "props.c13", "func": "real_shard", "kwargs": {"seed": common.derive_seed(seed, ID, "r", i), "n": nr // 16, "tier": tier}}
             for i in range(16)]
     acc, not_run = run_jobs(jobs, tag="c13", timeout_s=1500 if tier == "quick" else 7200)
